@@ -250,6 +250,34 @@ fn build_file(f: &Value) -> R<ast::ScriptFile> {
 }
 
 // ------------------------------------------------------------------------------------------
+// Self-test only (VERIF_C08_MUTATE): pretend the formatter had a defect by editing its output, to see
+// that the check notices.  Never set by the registered commands.
+
+/// remove the parenthesis that starts at `open` and its partner
+fn drop_parens_at(text: &str, open: usize) -> String {
+    let bytes = text.as_bytes();
+    let mut depth = 0;
+    for i in open..bytes.len() {
+        match bytes[i] { b'(' => depth += 1, b')' => { depth -= 1; if depth == 0 {
+            return format!("{}{}{}", &text[..open], &text[open + 1..i], &text[i + 1..]);
+        } }, _ => {} }
+    }
+    text.to_string()
+}
+
+fn mutate(text: String) -> String {
+    match std::env::var("VERIF_C08_MUTATE").as_deref() {
+        Ok("glue-minus") => match text.find("-(-") { Some(i) => drop_parens_at(&text, i + 1), None => text },
+        Ok("float-int") => text.replace("1.0", "1"),
+        Ok("right-assoc") => match text.find(" - (") { Some(i) => drop_parens_at(&text, i + 3), None => text },
+        Ok("tern-cond") => if text.starts_with("((") && text.contains(") ? ") { drop_parens_at(&text, 1) } else { text },
+        Ok("drop-nul") => text.replace("\\0", ""),
+        Ok("drop-space") => text.replace(" - -", " --"),
+        _ => text,
+    }
+}
+
+// ------------------------------------------------------------------------------------------
 // One type over everything that can be printed and parsed
 
 #[derive(Clone)]
@@ -273,6 +301,9 @@ impl Node {
         Ok(project(&v))
     }
     fn format(&self, w: usize) -> Result<String, PanicInfo> {
+        self.format_real(w).map(|t| mutate(t))
+    }
+    fn format_real(&self, w: usize) -> Result<String, PanicInfo> {
         let cfg = truth::fmt::Config::new().max_columns(w);
         guarded(|| match self {
             Node::Expr(x) => truth::fmt::stringify_with(x, cfg), Node::Stmt(x) => truth::fmt::stringify_with(x, cfg),
